@@ -16,4 +16,8 @@ MC_Free == Free
 MC_Alt == Alt
 MC_Deep == Deep
 MC_Staged == Staged
+\* the owner's key operations, each published at once: add-key / remove-key / remove, then `update --role targets`
+\* (enumerated exhaustively, not simulated: 4 commands; KeyOps2: a second operation and publication)
+MC_KeyOps == {<<"create", "owneradd", k, "incorporateT">> : k \in {"addkey", "removekey", "removerole"}}
+MC_KeyOps2 == {<<"create", "owneradd", k, "incorporateT", k2, "incorporateT">> : k \in {"addkey", "removekey"}, k2 \in {"addkey", "removekey", "removerole", "update"}}
 =============================================================================
